@@ -211,6 +211,27 @@ def check(run):
             run.violation("two different random JSON values share canonical bytes", {"kind": "canon-random", "value_repr": repr(val)[:2000]})
             break
         seen[h] = norm(val)
+    # large documents: many members, every insertion-order pattern at the top level, unsorted nested objects
+    nlarge = 0
+    for size in ([2, 10, 99, 100, 101, 150, 1000] if quick else [2, 10, 50, 99, 100, 101, 102, 128, 150, 256, 1000, 5000]):
+        for order in ("ascending", "descending", "random"):
+            for container in ("dict", "list"):
+                ks = ["k%06d" % i for i in range(size)]
+                if order == "descending":
+                    ks.reverse()
+                elif order == "random":
+                    rr.shuffle(ks)
+                inner = lambda i: {"z": i, "a": [{"y": 1, "b": {"d": None, "c": i}}], "m": "x"}      # noqa: E731  (unsorted insertion order inside)
+                val = {k: inner(i) for i, k in enumerate(ks)} if container == "dict" else [inner(i) for i in range(size)]
+                want, got = twin_canon(val), cs(val)
+                run.evaluations += 1
+                nlarge += 1
+                if got != want:
+                    run.violation(f"canonserialize differs from the published format on a large {container} ({order} insertion order)",
+                                  {"kind": "canon-random", "value_repr": f"{container} of {size} members, {order} insertion order, nested objects inserted unsorted"})
+                elif cs(json.loads(got)) != got:
+                    run.violation("large document is not a fixpoint of parse-then-serialize", {"kind": "canon-random", "value_repr": f"{container} {size} {order}"})
+    run.extra["large_documents"] = nlarge
     run.extra["random_values_beyond_bounded_domain"] = n
     run.assumptions.append("beyond the bounded domain of Canon.tla (all floats, arbitrary-size integers, all of Unicode) the claim is seeded random sampling against twin_canon, itself cross-checked against Canon.tla on the whole bounded domain in this run")
 
